@@ -273,8 +273,9 @@ func (s *Solver) Check(asserts []*Term, want []*Term) (Result, Model, string) {
 	if needsStringsSolver(text) {
 		order = []Backend{CVC5, Z3New, Z3}
 	} else if needsBVInt(text) {
-		order = []Backend{CVC5Int, Z3New, Z3, CVC5}
+		order = []Backend{Z3, CVC5Int, Z3New, CVC5}
 	}
+	short := needsBVInt(text)
 	atomic.AddInt64(&queryCounter, 1)
 	t0 := time.Now()
 	var last string
@@ -284,6 +285,8 @@ func (s *Solver) Check(asserts []*Term, want []*Term) (Result, Model, string) {
 		to := s.Timeout
 		if i > 0 {
 			to = s.Long
+		} else if short {
+			to = 2 * time.Second
 		}
 		r, m, info := s.checkOn(be, text, want, to)
 		last = be.Name + ":" + info
